@@ -107,7 +107,7 @@ ResultsFor(pt) == IF ~Quick THEN <<"correct", "+1", "-1", "0", "f255", "f0", "rn
                   ELSE <<"correct", "+1", "f255", "rnd">>
 IpaProgs == {[kind |-> "ipa", label |-> "p", poly |-> pl, point |-> pt, results |-> ResultsFor(pt)] :
                pl \in (IF Quick THEN {PolyTab[1], PolyTab[7]} ELSE {PolyTab[i] : i \in 1 .. Len(PolyTab)} \cup HalfPolys),
-               pt \in (IF Part = "ipa_few" THEN {"0", "255", "256", "r-1", "rnd1"} ELSE Points)}
+               pt \in (IF Part = "ipa_few" THEN {"0", "255", "256", "2^64", "r-1", "rnd1"} ELSE Points)}
 
 ByteCl == {"valid", "short1", "short32", "empty", "trail1", "trail32", "scalar_r", "scalar_r+1", "scalar_r-1", "scalar_max",
            "pt_xplusp", "pt_nonsubgroup", "pt_offcurve", "pt_other", "bitflip", "random",
